@@ -10,9 +10,11 @@ mod estimate;
 mod frames;
 mod latest;
 mod msghdr;
+mod rda;
 mod search;
 mod sim;
 mod sweep;
+mod vcp;
 
 use common::Args;
 
@@ -21,6 +23,8 @@ fn main() {
     let args = Args::parse();
     match args.module.as_str() {
         "sweep" => sweep::run(&args),
+        "rda" => rda::run(&args),
+        "vcp" => vcp::run(&args),
         "frames" => frames::run(&args),
         "datetime" => datetime::run(&args),
         "msghdr" => msghdr::run(&args),
